@@ -8,7 +8,8 @@ from . import core, irlib, c04, expr_json as EJ
 
 GPR = ['eax', 'ecx', 'edx', 'ebx', 'esp', 'ebp', 'esi', 'edi']
 FLAGMAP = {'nf': 'sf'}
-ARCH = set(GPR) | {'cf', 'pf', 'af', 'zf', 'sf', 'df', 'of', 'eip', 'x87'} | {'mm%d' % i for i in range(8)} | {'xmm%d' % i for i in range(8)}
+ARCH = (set(GPR) | {'cf', 'pf', 'af', 'zf', 'sf', 'df', 'of', 'eip', 'x87'} | {'mm%d' % i for i in range(8)} | {'xmm%d' % i for i in range(8)}
+        | {'es', 'cs', 'ss', 'ds', 'fs', 'gs'})
 
 
 def name_of(n):
